@@ -1,3 +1,5 @@
 import Audit.Tool
 import Adb.Props.C15
+import Adb.Props.TypeTable
 #audit_module Adb.Props.C15
+#audit_module Adb.Props.TypeTable
